@@ -39,10 +39,13 @@ THEOREMS = [
     "SymmModel.C03.matmulF_refines_graded",
     "SymmModel.C03.gradedTrace_def",
     "SymmModel.C03.traceF_refines_graded",
-    "SymmModel.C03.tensordotF_refines_graded_GRat"
+    "SymmModel.C03.tensordotF_refines_graded_GRat",
+    "SymmModel.C09.einsumF_eq",
+    "SymmModel.C09.einsumF_refines_graded",
+    "SymmModel.C09.transposedElem_inBox"
 ]
-LEAN_FILES = ["SymmModel.Props.C03", "SymmModel.Proofs.Koszul", "SymmModel.Props.C03b", "SymmModel.Props.C03All", "SymmModel.Proofs.Graded"]
-PLANNED = ["fused and auto mode of tensordotF (via C05/C06)", "einsumF"]
+LEAN_FILES = ["SymmModel.Props.C03", "SymmModel.Proofs.Koszul", "SymmModel.Props.C03b", "SymmModel.Props.C03All", "SymmModel.Proofs.Graded", "SymmModel.Props.C09b", "SymmModel.Proofs.LazyMore"]
+PLANNED = ["fused and auto mode of tensordotF (via C05/C06)"]
 RULE = ("random fermionic arrays over all symmetries (static/generic classes), even and odd total charge with "
         "labels, sparse, pending lazy signs; every permutation for transpose; tensordot over random axes in modes "
         "auto/fused/blockwise; trace, matmul, single-array einsum. Compared with the Lean model and an independent "
